@@ -193,6 +193,11 @@ def selftest(ctx, trace, kd):
     cfg = ctx.path("t_retry.cfg")
     lib.write_cfg(cfg, {"KnownDeviations": lib.tla_set(kd)}, "TInit", "TNext", invariants=["Done"])
     base = lib.tlc_trace(ctx, MODULE_T, cfg, base_p)
+    if base["violations"]:
+        # the code under test is already rejected inside this window (reported as VIOLATION by the caller):
+        # the corruptions below would be judged relative to a broken baseline, so the self-test says nothing
+        ctx.cov["binding_selftest"] = {"skipped": "the unmodified window already contains violations"}
+        return
     va, vb, vc = (lib.tlc_trace(ctx, MODULE_T, cfg, p) for p in (pa, pb, pc))
     res = {"corrupt_one_gap_flagged": (ia + 1) in va["violations"] and (ia + 1) not in base["violations"] and len(va["violations"]) == len(base["violations"]) + 1,
            "drop_one_event_flagged": (ib + 1) in vb["violations"] and len(vb["violations"]) > len(base["violations"]),
